@@ -62,6 +62,8 @@ def run (lines : Array String) : IO Report := do
           let cl := (geti "cl").toNat
           let sub := if mix == "c05" && opc == "r" && cl ≠ 0 && ec == "nofile" then "/get-beside-pass-file-removed"
                      else if mix == "c05" && opc == "r" && cl ≠ 0 && ec == "decode" then "/get-beside-pass-bytes-overwritten"
+                     else if mix == "c05" && opc == "r" && cl ≠ 0 && ec == "foreign" &&
+                             fileTicks.any (fun t => decide ((geti "inv").toNat < t) && decide (t < (geti "resp").toNat)) then "/get-across-file-reuse"
                      else ""
           diff rep ln "oracle" s!"case={cid} key={pfx}/operation-error{sub} an operation on key {key.take 24} ended in an error: {l.take 160}"
         if opc == "r" && (geti "val") < 0 then
